@@ -34,6 +34,8 @@ pub fn alphabet() -> Vec<Op> {
         Op::Stroke(PathSpec::new(vec![POp::M(0.5, 0.5), POp::L(wf - 0.5, hf - 1.0), POp::L(0.75, hf - 0.5)]), StyleSpec { width: 1.25, cap: 1, join: 1, miter: 4., dash: vec![], offset: 0. }, SrcSpec::Solid(0xff00ff00), Opts { mode: BlendMode::SrcAtop, alpha: 1.0, aa: true }),
         Op::PushClipRect(1, 0, 5, 4),
         Op::PushClipRect(0, 1, 4, 5),
+        // inverted: an empty clip (everything under it, layers included, is a no-op)
+        Op::PushClipRect(5, 4, 1, 1),
         Op::PushClip(tri),
         Op::PushClip(ring),
         Op::PopClip,
@@ -44,6 +46,8 @@ pub fn alphabet() -> Vec<Op> {
         Op::SetTransform(IDENT),
         Op::SetTransform([1., 0., 0., 1., 0.5, 0.25]),
         Op::SetTransform([1.5, 0., 0., 1.5, -1., -1.]),
+        // singular: draws under it paint nothing; pops and clear are unaffected
+        Op::SetTransform([0., 0., 0., 1., 0., 0.]),
     ]
 }
 
@@ -168,7 +172,7 @@ pub fn eval_mixed<F: Fn(&StepViolation) -> bool>(scene: &Scene, owns: &F, isolat
 pub fn explore_mixed<F: Fn(&StepViolation) -> bool + Sync>(run: &Run, prop: &str, owns: F, depth: usize, isolated: bool) {
     let alpha = alphabet();
     let na = alpha.len();
-    run.bound("mixed histories", format!("all well-formed call sequences of length 1..={} over a mixed alphabet of {} calls (9 draws of different kinds / modes / sources, 4 clip pushes, pop_clip, 3 layer pushes, pop_layer, 3 transforms; the two stacks are independent), auto-closed, on {}x{}; step oracle under the model's clip{}", depth, na, W, H, if isolated { " + isolated-surface machine" } else { "" }));
+    run.bound("mixed histories", format!("all well-formed call sequences of length 1..={} over a mixed alphabet of {} calls (9 draws of different kinds / modes / sources, 5 clip pushes (one empty), pop_clip, 3 layer pushes, pop_layer, 4 transforms (one singular); the two stacks are independent), auto-closed, on {}x{}; step oracle under the model's clip{}", depth, na, W, H, if isolated { " + isolated-surface machine" } else { "" }));
     let _ = prop;
     run.par(na * na, |s, l| {
         fn rec<F: Fn(&StepViolation) -> bool + Sync>(run: &Run, s: usize, l: &mut Local, alpha: &[Op], seq: &mut Vec<Op>, depth: usize, owns: &F, isolated: bool) {
